@@ -86,14 +86,74 @@ pub fn oscode(code: u16) -> Option<OsCode> {
     OsCode::from_u16(code)
 }
 
+fn zout_tok(o: &kanata_parser::cfg::ZchOutput) -> String {
+    use kanata_parser::cfg::ZchOutput::*;
+    let (kind, ne, osc) = match *o {
+        Lowercase(c) => (0, 0, c),
+        Uppercase(c) => (1, 0, c),
+        AltGr(c) => (2, 0, c),
+        ShiftAltGr(c) => (3, 0, c),
+        NoEraseLowercase(c) => (0, 1, c),
+        NoEraseUppercase(c) => (1, 1, c),
+        NoEraseAltGr(c) => (2, 1, c),
+        NoEraseShiftAltGr(c) => (3, 1, c),
+    };
+    format!("{} {} {}", kind, ne, osc.as_u16())
+}
+
+fn ztree(ch: &kanata_parser::cfg::ZchPossibleChords, out: &mut String) {
+    let es = ch.0.verif_entries();
+    out.push_str(&format!("{} ", es.len()));
+    for (k, v) in es {
+        out.push_str(&format!("{} ", k.len()));
+        for x in &k {
+            out.push_str(&format!("{} ", x));
+        }
+        out.push_str(&format!("{} ", v.zch_output.len()));
+        for o in v.zch_output.iter() {
+            out.push_str(&zout_tok(o));
+            out.push(' ');
+        }
+        match &v.zch_followups {
+            None => out.push_str("0 "),
+            Some(f) => {
+                out.push_str("1 ");
+                ztree(&f.lock(), out);
+            }
+        }
+    }
+}
+
+/// `ZIPPY <wait-enable> <deadline> <smart-space 0|1|2> <npunct> (<kind> <noerase> <osc>)*` + `ZTREE ...` (pre-order)
+fn dump_zippy(z: &Option<(kanata_parser::cfg::ZchPossibleChords, kanata_parser::cfg::ZchConfig)>) -> String {
+    match z {
+        None => "ZIPPY none\n".to_string(),
+        Some((chords, cfg)) => {
+            use kanata_parser::cfg::ZchSmartSpaceCfg::*;
+            let ss = match cfg.zch_cfg_smart_space {
+                Disabled => 0,
+                AddSpaceOnly => 1,
+                Full => 2,
+            };
+            let mut p: Vec<String> = cfg.zch_cfg_smart_space_punctuation.iter().map(zout_tok).collect();
+            p.sort();
+            let mut s = format!("ZIPPY {} {} {} {} {}\n", cfg.zch_cfg_ticks_wait_enable, cfg.zch_cfg_ticks_chord_deadline, ss, p.len(), p.join(" "));
+            s.push_str("ZTREE ");
+            ztree(chords, &mut s);
+            s.push('\n');
+            s
+        }
+    }
+}
+
 pub fn run_case(case: &Case, names: &HashMap<String, u16>) {
     use std::io::Write as _;
     let mut out = String::new();
     writeln!(out, "CASE {}", case.id).unwrap();
     // options that Kanata keeps private are read from a separate parse of the same text
-    let opts = match std::panic::catch_unwind(|| kanata_parser::cfg::new_from_str(&case.cfg, case.files.clone())) {
-        Ok(Ok(c)) => Some(c.options),
-        _ => None,
+    let (opts, zippy) = match std::panic::catch_unwind(|| kanata_parser::cfg::new_from_str(&case.cfg, case.files.clone())) {
+        Ok(Ok(c)) => (Some(c.options), Some(dump_zippy(&c.zippy))),
+        _ => (None, None),
     };
     let parsed = std::panic::catch_unwind(|| Kanata::new_from_str(&case.cfg, case.files.clone()));
     let mut k = match parsed {
@@ -114,6 +174,7 @@ pub fn run_case(case: &Case, names: &HashMap<String, u16>) {
     let mut cu = dump::Customs::default();
     out.push_str("DUMP-BEGIN\n");
     out.push_str(&dump::kanata_cfg(&k, opts.as_ref().expect("options"), &mut cu));
+    out.push_str(zippy.as_deref().unwrap_or("ZIPPY none\n"));
     out.push_str("DUMP-END\n");
     writeln!(out, "H {}", case.hist.join(" ")).unwrap();
     out.push_str("TRACE-BEGIN\n");
